@@ -347,13 +347,15 @@ pub struct Tier {
     pub big: u64,
     /// parties compile concurrently in one process under the baton scheduler
     pub concurrent: u64,
+    /// programs of several million gates (beyond 2^20-entry table thresholds); very few parties
+    pub huge: u64,
 }
 
 pub fn tier(t: &str) -> Tier {
     if t == "thorough" {
-        Tier { parties: 48, generated: 40_000, ill_typed: 2_000, big: 96, concurrent: 3_000 }
+        Tier { parties: 48, generated: 40_000, ill_typed: 2_000, big: 96, concurrent: 3_000, huge: 8 }
     } else {
-        Tier { parties: 12, generated: 1_500, ill_typed: 100, big: 8, concurrent: 120 }
+        Tier { parties: 12, generated: 1_500, ill_typed: 100, big: 8, concurrent: 120, huge: 1 }
     }
 }
 
@@ -370,7 +372,7 @@ impl Plan {
         Ok(Plan { corpus, n_corpus: n, tier: tier(t) })
     }
     pub fn n_cases(&self) -> u64 {
-        self.n_corpus + self.tier.generated + self.tier.ill_typed + self.tier.big + self.tier.concurrent
+        self.n_corpus + self.tier.generated + self.tier.ill_typed + self.tier.big + self.tier.concurrent + self.tier.huge
     }
 }
 
@@ -473,6 +475,8 @@ pub fn make_world(plan: &Plan, seed: u64, idx: u64) -> (World, String, Prng) {
         ("ill_typed", format!("ill-{idx}"), gen::ill_typed(&mut p))
     } else if idx < plan.n_corpus + plan.tier.generated + plan.tier.ill_typed + plan.tier.big {
         ("big", format!("big-{idx}"), gen::big_program(&mut p))
+    } else if idx >= plan.n_corpus + plan.tier.generated + plan.tier.ill_typed + plan.tier.big + plan.tier.concurrent {
+        ("huge", format!("huge-{idx}"), gen::huge_program(&mut p))
     } else if p.chance(1, 4) && plan.n_corpus > 0 {
         let e = &plan.corpus[p.usize_below(plan.corpus.len())];
         ("concurrent", e.name.clone(), e.src.clone())
@@ -501,8 +505,15 @@ pub fn make_world(plan: &Plan, seed: u64, idx: u64) -> (World, String, Prng) {
     if fns.is_empty() {
         fns.push("main".into());
     }
+    // a function that does not exist is asked for as well: every party must get the same error
+    if !matches!(family, "big" | "huge") {
+        let missing = if fns.iter().any(|f| f == "main") { "no_such_function".to_string() } else { "main".to_string() };
+        fns.push(missing);
+    }
     let light = src.len() > 6000;
-    let nparties = if family == "concurrent" {
+    let nparties = if family == "huge" {
+        2
+    } else if family == "concurrent" {
         p.range(3, 7) as usize
     } else if family == "big" {
         2
@@ -521,6 +532,15 @@ pub fn make_world(plan: &Plan, seed: u64, idx: u64) -> (World, String, Prng) {
             party.steps = vec![st(false, true, Mode::Src), st(false, true, Mode::Src), st(false, false, Mode::Src), st(true, true, Mode::Typed), st(false, true, Mode::Typed)];
         }
     }
+    if family == "huge" {
+        // two compilations from source per party, default options: enough to see whether a table
+        // that overflowed was thinned the same way everywhere
+        for party in parties.iter_mut() {
+            let f = fns[0].clone();
+            let st = Step { fn_name: f, opts: Opts { register: false, dedup: true }, mode: Mode::Src, perm: vec![], cap: 0, warm_src: None };
+            party.steps = vec![st.clone(), st];
+        }
+    }
     let mut concurrent = None;
     if family == "concurrent" {
         // short histories, all at once: the interesting thing is the interleaving
@@ -532,7 +552,7 @@ pub fn make_world(plan: &Plan, seed: u64, idx: u64) -> (World, String, Prng) {
     // process history: some parties compiled something else before
     let adv = adversarial_warm(&src);
     for party in parties.iter_mut() {
-        if p.chance(1, 3) {
+        if family != "huge" && p.chance(1, 3) {
             // what the process did before: the adversarial program, another generated program, or a
             // compilation that FAILS (ill-typed program; error paths must not leave state behind)
             let other = match p.below(5) {
@@ -544,7 +564,12 @@ pub fn make_world(plan: &Plan, seed: u64, idx: u64) -> (World, String, Prng) {
         }
     }
     // two parties that are real, fresh OS processes with the SAME keys: one cold, one with a history
-    if family != "ill_typed" && !light {
+    if family == "huge" {
+        // one cold process party, nothing else
+        let keys = Keys { k0: p.next_u64(), k1: p.next_u64(), drift: 0 };
+        let target = simple_step(&fns[0], Opts { register: false, dedup: true });
+        parties.push(PartySpec { keys, steps: vec![target], process: true, alloc_limit: None, env_flip: vec![] });
+    } else if family != "ill_typed" && !light {
         let keys = Keys { k0: p.next_u64(), k1: p.next_u64(), drift: 0 };
         let o = *p.pick(&Opts::all());
         let target = simple_step(&fns[0], o);
